@@ -53,3 +53,100 @@ def aifeyn_contract():
 
     return Contract("aifeyn_complexity", {"tree": T.list(T.label), "param_list": T.list(T.label)},
                     requires=requires, ensures=ensures, setup=setup, raises=lambda S, a, e: z3.BoolVal(False))
+
+
+# ------------------------------------------------------------------------------ node_to_string (C02)
+Expr = z3.DeclareSort("Expr")                                   # the function a tree / a parsed string denotes
+LEAF = z3.Function("leaf", Label, Expr)
+APP1 = z3.Function("app1", Label, Expr, Expr)
+APP2 = z3.Function("app2", Label, Expr, Expr, Expr)
+DEN = z3.Function("parse.den", Label, Expr)                      # what the parser makes of a string
+WF = z3.Function("parse.wf", Label, z3.BoolSort())              # the string is a well-formed (sub)expression
+ATOM = z3.Function("str.atom", Label, z3.BoolSort())            # leaf tokens: x, a<i>, numbers
+
+
+def node_to_string_contract():
+    """By structural induction (decreasing n - idx; children come after their parent): the string returned for node idx is a
+    well-formed expression that the parser reads as the value of the subtree at idx.  The parser is specified by four
+    composition rules (leaf; f(E); (E)op(E) for the four infix operators; f(E,E)) -- the assumption that sympy parses fully
+    parenthesised text compositionally (A-sympy)."""
+    from pyvc.values import HRec, VRecRef, VMaybeNone
+    VALF = z3.Function("tree.val", z3.IntSort(), Expr)
+    N = z3.Int("ntree")
+
+    def mk_tree(eng, st):
+        v = eng.fresh(T("recseq", "Node", (("left", T.opt(T.int)), ("right", T.opt(T.int)), ("type", T.int))), "tree", st)
+        st.heap[v.addr].len = N
+        return v
+
+    def mk_labels(eng, st):
+        v = eng.fresh(T.list(T.label), "labels", st)
+        st.heap[v.addr].len = N
+        return v
+
+    def cat(eng, *parts):
+        c = eng.label_fn("concat", Label, Label)
+        t = parts[0]
+        for p in parts[1:]:
+            t = c(t, p)
+        return t
+
+    def parser_axioms(eng):
+        f, E1, E2, op = z3.Consts("f!p E1!p E2!p op!p", Label)
+        L = eng.label_of
+        infix = z3.Or(op == L("*"), op == L("/"), op == L("-"), op == L("+"))
+        a1 = cat(eng, f, L("("), E1, L(")"))
+        a2 = cat(eng, L("("), E1, L(")"), op, L("("), E2, L(")"))
+        a3 = cat(eng, f, L("("), E1, L(","), E2, L(")"))
+        return [
+            z3.ForAll([f], z3.Implies(ATOM(f), z3.And(WF(f), DEN(f) == LEAF(f))), patterns=[ATOM(f)]),
+            z3.ForAll([f, E1], z3.Implies(WF(E1), z3.And(WF(a1), DEN(a1) == APP1(f, DEN(E1)))), patterns=[a1]),
+            z3.ForAll([op, E1, E2], z3.Implies(z3.And(infix, WF(E1), WF(E2)), z3.And(WF(a2), DEN(a2) == APP2(op, DEN(E1), DEN(E2)))), patterns=[a2]),
+            z3.ForAll([f, E1, E2], z3.Implies(z3.And(WF(E1), WF(E2)), z3.And(WF(a3), DEN(a3) == APP2(f, DEN(E1), DEN(E2)))), patterns=[a3]),
+        ]
+
+    def requires(S, a):
+        eng, st = S.eng, S.st
+        tr = st.heap[a["tree"].addr]
+        lab = S.seq(a["labels"])
+        ty, le, ri = tr.fields["type"], tr.fields["left"], tr.fields["right"]
+        k = z3.Int("k!wf")
+        notnone = z3.BoolVal(True)
+        if isinstance(a["idx"], VMaybeNone):
+            notnone, idx = z3.Not(a["idx"].isnone), a["idx"].val.t
+        else:
+            idx = a["idx"].t
+        wf = z3.ForAll([k], z3.Implies(z3.And(0 <= k, k < N), z3.And(
+            z3.Or(ty(k).t == 0, ty(k).t == 1, ty(k).t == 2),
+            z3.Implies(ty(k).t >= 1, z3.And(z3.Not(le(k).isnone), k < le(k).val.t, le(k).val.t < N)),
+            z3.Implies(ty(k).t == 2, z3.And(z3.Not(ri(k).isnone), k < ri(k).val.t, ri(k).val.t < N)),
+            z3.Implies(ty(k).t == 0, ATOM(lab.get(k).t)))))
+        val = z3.ForAll([k], z3.Implies(z3.And(0 <= k, k < N), z3.And(
+            z3.Implies(ty(k).t == 0, VALF(k) == LEAF(lab.get(k).t)),
+            z3.Implies(ty(k).t == 1, VALF(k) == APP1(lab.get(k).t, VALF(le(k).val.t))),
+            z3.Implies(ty(k).t == 2, VALF(k) == APP2(lab.get(k).t, VALF(le(k).val.t), VALF(ri(k).val.t))))), patterns=[VALF(k)])
+        return [("idx is a node index: not None and 0 <= idx < n", z3.And(notnone, 0 <= idx, idx < N)),
+                ("the tree is a prefix tree: arities 0/1/2, children present and after their parent, leaves carry atoms", wf),
+                ("tree.val is the value of the subtree (definition)", val)]
+
+    def ensures(S, a, res):
+        from pyvc.values import VStr
+        if isinstance(res, VStr):
+            rt = S.eng.label_of(res.s)
+        elif isinstance(res, VLabel):
+            rt = res.t
+        else:
+            return [("returns a string", z3.BoolVal(False))]
+        return [("the returned string is well formed", WF(rt)), ("the parser reads it as the value of the subtree at idx", DEN(rt) == VALF(a["idx"].val.t if isinstance(a["idx"], VMaybeNone) else a["idx"].t))]
+
+    def setup(eng, st, args):
+        eng.axioms.extend(parser_axioms(eng))
+        eng.contracts["node_to_string"] = c
+
+    def returns(eng, st, a):
+        return VLabel(z3.Const(fresh_name("substr"), Label))
+
+    c = Contract("node_to_string", {"idx": T.int, "tree": mk_tree, "labels": mk_labels}, requires=requires, ensures=ensures, setup=setup,
+                 returns=returns, raises=lambda S, a, e: z3.BoolVal(False))
+    c.decreases = lambda S, a: N - (a["idx"].t if not isinstance(a["idx"], VMaybeNone) else a["idx"].val.t)
+    return c
